@@ -304,12 +304,17 @@ def cacheseq(prop, tier, seed):
         prows = pr[0].rows + pr[1].rows
         if not prows:
             raise ToolFailure("vacuous: no behaviour of the permission universe")
-        fp = scratch_file("cacheseq-perm.ndjson")
+        # the unprivileged process must be able to read the cases: not below a private directory
+        pdir = vlib.mkscratch("perm-cases")
+        os.chmod(pdir, 0o755)
+        fp = os.path.join(pdir, "cases.ndjson")
         write_rows(prows, fp)
+        os.chmod(fp, 0o644)
         try:
             pres, _ = run_harness("replay-cache", ["-cases", fp, "-seed", seed], env_extra={"VERIF_UID": "65534"} if os.geteuid() == 0 else None)
         finally:
-            os.unlink(fp)
+            import shutil
+            shutil.rmtree(pdir, ignore_errors=True)
         tool_errors(pres["mismatches"])
         mine += tagged(pres["mismatches"], prop)
         cov["unreadable_file_and_directory_rows"] = pres["evaluations"]
